@@ -1,3 +1,5 @@
 //! In-crate Kani harnesses for tower-resilience-reconnect.
 pub mod c14;
 pub mod env;
+pub mod svc;
+pub mod c16;
